@@ -399,11 +399,13 @@ func (d *StreamDecoder) Advance(n int) error {
 	if n < 0 {
 		return errors.New("cannot advance by negative amount")
 	}
-	newPos := d.consumed + d.dec.NumBytesRead() + n
-	if newPos > len(d.data) {
+	// Compare against the remaining length instead of computing pos+n first,
+	// which can wrap around for a very large n and slip past the bounds check
+	pos := d.consumed + d.dec.NumBytesRead()
+	if n > len(d.data)-pos {
 		return errors.New("advance would exceed data bounds")
 	}
-	d.consumed = newPos
+	d.consumed = pos + n
 	// Reinitialize decoder with remaining data, reusing cached DecMode
 	d.dec = d.decMode.NewDecoder(bytes.NewReader(d.data[d.consumed:]))
 	return nil
